@@ -1575,6 +1575,56 @@ func reusePhase(r *ev.Run, vers []int) {
 			})
 		}
 	}
+	// v2 only: a vector offered in two pieces (every split point of every second input), and in
+	// three.  The pinned v2 decoders compare the input with the re-encoding of the whole object and
+	// therefore refuse every continuation; C08 says that a v2 decoder accepts nothing but a complete
+	// canonical vector of its level, so a piece that is accepted is a violation (round 4,
+	// C08-A-r4: an order check that lives in the decoder object instead of the string).
+	var pieces int64
+	for _, ver := range vers {
+		if ver != 2 {
+			continue
+		}
+		for level := 0; level < 3; level++ {
+			for _, whole := range reuseInputs(2, level) {
+				toks := strings.Split(whole, "/")
+				for k := 1; k < len(toks); k++ {
+					for k2 := k; k2 < len(toks); k2++ {
+						if k2 > k && (k2-k > 3 && len(toks)-k2 > 3) {
+							continue // three pieces: at least one of the later two is short
+						}
+						parts := []string{strings.Join(toks[:k], "/"), strings.Join(toks[k:], "/")}
+						if k2 > k {
+							parts = []string{strings.Join(toks[:k], "/"), strings.Join(toks[k:k2], "/"), strings.Join(toks[k2:], "/")}
+						}
+						d := lib.New(2, level)
+						var hist []string
+						for pi, part := range parts {
+							obj, err, pan := lib.Decode(d, part)
+							hist = append(hist, "Decode("+part+")")
+							pieces++
+							cs := map[string]any{"cvss": 2, "decoder": spec.LevelNames[level], "history_on_one_decoder": append([]string{}, hist...)}
+							if pan != "" {
+								r.Violate(ev.Violation{Kind: "second-decode-panics", Case: cs, Observed: pan, Expected: "an error or an object"})
+								break
+							}
+							if (obj == nil) == (err == nil) {
+								r.Violate(ev.Violation{Kind: "object-xor-error", Case: cs, Observed: fmt.Sprintf("object nil=%v, error nil=%v", obj == nil, err == nil), Expected: "exactly one of object and error"})
+								break
+							}
+							if obj != nil && pi > 0 {
+								if ref := lang.Classify(2, level, part); !ref.Accept {
+									r.Violate(ev.Violation{Kind: "reused-decoder-accepts-ill-formed-vector", Case: cs, Observed: "accepted", Expected: "rejected: " + strings.Join(ref.DefectList(), ", ")})
+									break
+								}
+							}
+						}
+					}
+				}
+			}
+		}
+	}
+	r.Add("reuse_v2_piecewise_decodes", pieces)
 	r.Add("reuse_second_decodes", n)
 	r.Add("reuse_second_decodes_accepted", accepted)
 }
